@@ -92,9 +92,13 @@ PROPS = {
                        "gatherThread / gatherThreads model the loop of thread_list_stream::write around it (which source each thread's stack pointer, "
                        "instruction pointer and registers come from, which thread is exempt): E2E_threads (one gathered thread per listed thread, in order, "
                        "at its list position), E2E_crash_thread / E2E_other_thread, E2E_crash_thread_full (the thread of the crash context reaches its "
-                       "mapping's end under any limit at any position). The live driver evaluates gatherThread on every thread of every live C06 dump.",
-        "extra_modules": ["MdwModel.Theorems.EndToEnd"],
-        "extra_theorems": ["gather_inv", "E2E_stack_contains_sp", "gather_order_agrees", "E2E_crash_thread", "E2E_other_thread", "E2E_threads", "E2E_crash_thread_full"],
+                       "mapping's end under any limit at any position). The live driver evaluates gatherThread on every thread of every live C06 dump. "
+                       "Theorems/EndToEndMem.lean instantiates the reader with the C17 reader model (copyFromProcess = fresh MemReader: vectored read, then "
+                       "/proc/<pid>/mem, then ptrace, over a paged memory): where the pages under the stack's mapping are readable the reader hypothesis is "
+                       "discharged (copy_reads_exactly_in), giving E2E_stack_readable with no assumption about the reader, and E2E_stack_recorded "
+                       "(such a stack is recorded: the gathering succeeds with a region).",
+        "extra_modules": ["MdwModel.Theorems.EndToEnd", "MdwModel.Theorems.EndToEndMem"],
+        "extra_theorems": ["gather_inv", "E2E_stack_contains_sp", "gather_order_agrees", "E2E_crash_thread", "E2E_other_thread", "E2E_threads", "E2E_crash_thread_full", "copy_readable", "copy_reads_exactly_in", "E2E_stack_readable", "E2E_stack_recorded"],
     },
     "C20": {
         "rule": "real stack_has_pointer_to_mapping on stacks of length 0 … 64 with words at / next to both ends of the principal mapping at all "
@@ -166,7 +170,7 @@ PROPS = {
         "rule": "in-process: random ucontext / fpstate register files (boundary values per field) through the real CrashContext::fill_cpu_context and scroll; "
                 "live: real dumps with and without a crash context (registers inside / outside mappings, blamed thread main / other / absent / traced by "
                 "another process so that it cannot be attached): decoded exception stream and blamed thread's entry. Non-trivial = every case; distinct = "
-                "distinct register residues (in-process) / option vectors (live).",
+                "distinct register residues (in-process) / option vectors (live). Signal codes include the negative ones (SI_TKILL, SI_QUEUE, …) and the extremes.",
         "expected_tags": ["uctx", "cfg.crash", "cfg.nocrash", "blamed.listed", "blamed.unlisted"],
         "trusted_base": ["scroll field-wise little-endian serialisation of CONTEXT_AMD64 (byte-compared with the model)", "the live target reports its own register values"],
         "assumptions": ["x86_64", "ds/es/ss are not part of a ucontext; CONTEXT.MxCsr (top level) is left 0 by the writer, float_save.mx_csr carries the value"],
@@ -217,7 +221,7 @@ PROPS = {
                 "property segment, section names last in .shstrtab, segment bias) whose answers are known by construction; and the same generated "
                 "images loaded by a live target (whole, split r / r-x, first page only, r-x + rw) and read from its memory next to the answers from "
                 "the file. Distinct = (class+endianness, build-id strategy or "
-                "error chain, soname strategy or error chain, size bucket).",
+                "error chain, soname strategy or error chain, size bucket). Generated images also with a loadable segment that begins at a non-zero file offset (p_vaddr − p_offset stays the link base).",
         "expected_tags": ["kind.file", "class.64", "class.32", "endian.be", "header.err", "buildid.note", "buildid.section", "buildid.texthash", "buildid.err",
                           "soname.phdr", "soname.section", "soname.err", "kind.wellformed", "kind.proc", "proc.consistent"],
         "theorem_namespace": "Elf.",
@@ -264,16 +268,20 @@ PROPS = {
         "extra_theorems": ["E2E_module_in_image"],
     },
     "C17": {
-        "rule": "live: MemReader::for_virtual_mem / for_file / for_ptrace (target ptrace-stopped) on ranges inside, ending exactly at, and crossing the end of "
-                "pattern regions (address-derived fill; preceded by an unmapped page, with short ranges starting 0 … 8 bytes after it) followed by an unmapped page, a PROT_NONE page or another readable page; lengths 1 … 70000 dense near "
+        "rule": "live: MemReader::for_virtual_mem / for_file / for_ptrace and the reader without a chosen strategy (MemReader::new, what copy_from_process uses; target ptrace-stopped) on ranges inside, ending exactly at, and crossing the end of "
+                "pattern regions (address-derived fill, every fifth 16-byte block all ones so that words equal to -1 are read; preceded by an unmapped page, with short ranges starting 0 … 8 bytes after it) followed by an unmapped page, a PROT_NONE page or another readable page; lengths 1 … 70000 dense near "
                 "1 … 24 and near page multiples, every alignment mod 8. Distinct = (strategy, neighbour kind, start mod 8, length mod 8, pages, crossing, outcome).",
-        "expected_tags": ["strat.v", "strat.f", "strat.p", "kind.u", "kind.n", "kind.r", "range.inside", "range.atEnd", "range.crossing", "range.atStart", "len.partialWord", "result.err"],
+        "expected_tags": ["strat.v", "strat.f", "strat.p", "strat.a", "kind.u", "kind.n", "kind.r", "range.inside", "range.atEnd", "range.crossing", "range.atStart", "len.partialWord", "result.err"],
         "trusted_base": ["kernel semantics of process_vm_readv (needs PROT_READ, page-granular prefix), pread(/proc/pid/mem) and PTRACE_PEEKDATA (FOLL_FORCE: any mapped page; "
                          "a peek fails if any of its 8 bytes is unmapped) — assumptions of the model, validated by these runs only"],
         "assumptions": ["'unreadable' for the file and ptrace strategies means unmapped: they return the real bytes of mapped PROT_NONE pages (not fabricated data)"],
         "explanation": "C17 theorems over the model of the three strategies on a paged memory: readable range ⇒ exact bytes (vectored; file; ptrace for every range "
                        "of at least a word, and for shorter ranges when either candidate word is mapped); otherwise failure or a non-empty prefix of readable "
-                       "bytes (vectored) / failure (file, ptrace); soundness of whatever ptrace returns; counterexample theorem for the repaired tail read.",
+                       "bytes (vectored) / failure (file, ptrace); soundness of whatever ptrace returns; counterexample theorem for the repaired tail read. "
+                       "copy_readable (Theorems/EndToEndMem.lean): copy_from_process — a fresh reader trying the strategies in order — returns exactly the "
+                       "target's bytes of a readable range; this is what discharges the reader hypothesis of the end-to-end stack theorems.",
+        "extra_modules": ["MdwModel.Theorems.EndToEndMem"],
+        "extra_theorems": ["copy_readable", "copy_reads_exactly_in"],
     },
     "C11": {
         "rule": "live dumps under every subset of the five fail points (32 combinations, 1 … 5 threads, with / without an unresolvable principal mapping) and "
@@ -312,7 +320,7 @@ PROPS = {
         "rule": "live dumps (same generated targets and option combinations as C01): raw streams vs. the harness's own reads of /proc/<tid>/{cmdline,environ,auxv,limits,maps,status} "
                 "and /proc/cpuinfo taken while the target is blocked; memory-info list vs. the memory map through the model; handle descriptors vs. readlink/stat of "
                 "/proc/<pid>/fd; system info vs. the cpuinfo scan model; linker debug stream vs. the synthetic PHDR → PT_DYNAMIC → DT_DEBUG → r_debug → link_map chain the "
-                "target built (reached through caller-supplied auxv values). Distinct = (#map lines, #descriptors, #checks, #threads).",
+                "target built (reached through caller-supplied auxv values). Distinct = (#map lines, #descriptors, #checks, #threads). A quarter of the live targets are the position-dependent build of the target program (ET_EXEC, load bias 0).",
         "expected_tags": ["raw.cmdline", "raw.environ", "raw.auxv", "raw.limits", "raw.maps", "meminfo.checked", "handles.checked", "sysinfo.checked", "dso.checked"],
         "trusted_base": ["the contents of /proc are what the kernel reports (external input)", "procfs-core's maps parser"],
         "assumptions": ["partial: 'as the kernel reports them' is an external input; volatile lines of /proc/<tid>/status (State, TracerPid, context-switch counters, pending signals) are masked"],
@@ -325,7 +333,7 @@ PROPS = {
                 "2^61, p_vaddr that under/overflows, dynamic entries / r_debug / link_map / names ending at unreadable memory, no DT_NULL) through the real "
                 "write_dso_debug_stream under a 3 s watchdog; whole dumps of targets mapping files with hostile names (non-ASCII, spaces, ' (deleted)', `.so.1.2.3é4`, "
                 "`/SYSVab`) and files from /dev/shm watched with inotify; the whole live option matrix with crash registers unmapped / at the top of the address space. "
-                "Distinct = distinct (kind, scenario, outcome) / parsed versions.",
+                "Distinct = distinct (kind, scenario, outcome) / parsed versions. Hostile linker data also with program-header counts beyond what an ELF header can announce (65535 … 74000) over a 4 MiB readable region.",
         "expected_tags": ["sover", "sover.some", "sover.nonascii", "dso.cyclic", "dso.mulphnum", "dso.dyn-short", "dso.linkmap-short", "dso.vaddr-underflow", "files.devshm-nonelf",
                           "files.sysv-name", "files.sover-name", "dump", "crash.ip.top", "crash.sp.top"],
         "extra_theorems": ["C12_total", "C06_total", "C06_walk_total", "C18_walk_cycle_diverges"],
